@@ -96,6 +96,9 @@ pub(crate) enum Bin {
     UrlPad,
     Std,
     StdPad,
+    /// base64url whose last symbol has its unused low bits set (text a relying party generated as a
+    /// random url-safe string rather than by encoding bytes)
+    UrlSpareBits,
 }
 #[derive(Clone, Copy, Debug, PartialEq)]
 pub(crate) enum Num {
@@ -122,6 +125,7 @@ fn bin(b: &[u8], p: Bin) -> Value {
         Bin::Array => json!(b),
         Bin::Url => json!(oracle::b64url(b)),
         Bin::UrlPad => json!(oracle::b64url_padded(b)),
+        Bin::UrlSpareBits => json!(oracle::b64url_spare_bits_set(b)),
         Bin::Std => json!(oracle::b64std(b)),
         Bin::StdPad => json!(oracle::b64std_padded(b)),
     }
@@ -349,7 +353,7 @@ fn options_case(rep: &mut Report, seed: u64, idx: u64, thorough: bool) {
             rep.violate("parsed algorithm list differs from the document", format!("{got:?} vs {known:?}"), case0.clone());
         }
     }
-    let bins = [Bin::Array, Bin::Url, Bin::UrlPad, Bin::Std, Bin::StdPad];
+    let bins = [Bin::Array, Bin::Url, Bin::UrlPad, Bin::Std, Bin::StdPad, Bin::UrlSpareBits];
     let nums = [Num::Number, Num::Str, Num::Float, Num::FloatStr];
     let mut variants: Vec<Present> = Vec::new();
     for b in bins {
@@ -446,6 +450,20 @@ fn b64_case(rep: &mut Report, b: &[u8], idx: u64) {
             }
             if via.as_deref() != Some(b) || s != e {
                 rep.violate("Bytes <-> base64url string conversion is not the identity", String::new(), case.clone());
+            }
+            // the same bytes written with the spare bits of the last symbol set
+            let loose = oracle::b64url_spare_bits_set(b);
+            if loose != e {
+                let got = catch(|| (encoding::try_from_base64url(&loose), Bytes::try_from(loose.as_str()).ok().map(|x| x.to_vec())));
+                match got {
+                    Ok((d2, v2)) => {
+                        if d2.as_deref() != Some(b) || v2.as_deref() != Some(b) {
+                            rep.violate("base64url text whose last symbol has its spare bits set does not decode to the same bytes", format!("{loose}: try_from_base64url {:?}, Bytes::try_from {:?}", d2.is_some(), v2.is_some()), case.clone());
+                        }
+                        rep.count("b64_spare_bits_checked");
+                    }
+                    Err((sig, d)) => rep.violate(&format!("base64url {sig}"), d, case.clone()),
+                }
             }
             rep.count("b64_identity_checked");
             if !b.is_empty() {
